@@ -413,6 +413,10 @@ def normalise(j: Any) -> Any:
         d = {k: normalise(v) for k, v in j.items()}
         if d.get("t") == "set":
             d["xs"] = sorted(d["xs"], key=_k)
+        if d.get("t") == "tuple" and not d["xs"]:
+            d["oid"] = 0   # CPython has one empty tuple: its identity carries no information
+        if isinstance(d.get("err"), dict) and d["err"].get("e") == "set":
+            d["children"] = sorted(d["children"], key=_k)   # set iteration order is not an observation
         if d.get("e") == "coercion":
             d["compat"] = sorted(d["compat"], key=_k)
         if d.get("e") == "extraKeys":
